@@ -303,3 +303,14 @@ def wpDrainStrict (parseKV : Bytes → Option Bytes) (body : Bytes) : Option (By
   | _ => none
 
 end Logrange.WireRT
+
+namespace Logrange.WireRT
+
+/-- what a client receives for a page the server built: the built bytes — provided the pooled buffer holding them is not
+released before the last statement that sends it (regenerated lifetime fact `pooledBuffersReleasedAfterLastUse`); a buffer that
+is back in the shared `bytes.Pool` while `SendResponse` still writes it to the socket may be refilled by another handler
+(`env`: whatever the environment makes of it). -/
+def responseOnWire (built : Bytes) (env : Bytes → Bytes) : Bytes :=
+  if Generated.C01.pooledBuffersReleasedAfterLastUse then built else env built
+
+end Logrange.WireRT
